@@ -92,6 +92,11 @@ def runCase : CaseFn := fun c => Id.run do
   let bsEff := if bsReq == 0 then Neutrino.Gen.Import.defaultWriteBatchSize else bsReq
   let cfg1 : Cfg := { bs := bsEff, failB := (field hdr "failb").toNat?, failF := (field hdr "failf").toNat?, cancelAt := (field hdr "cancel").toNat? }
   let cfg2 : Cfg := { bs := cfg1.bs }
+  -- a source that starts failing in the write phase (first import only): side, arming poll, first unreadable index
+  let rf1 : Option ReadFault :=
+    match (field hdr "rfs").toNat?, (field hdr "rfp").toNat?, (field hdr "rfi").toNat? with
+    | some s, some p, some i => some { block := s == 0, poll := p, idx := i }
+    | _, _, _ => none
   for (ln, line) in c.lines do
     let (op, obs) := splitObs line
     match words op with
@@ -113,7 +118,7 @@ def runCase : CaseFn := fun c => Id.run do
         out := out.push s!"ORACLE-FAIL C14 case {c.num} line {ln}: shape=import-{obs} import did not return normally"
       if let (some F, some st) := (file, mst) then
         if !diverged then
-          let (e, r) := importRun F (if nimport == 1 then cfg1 else cfg2) st
+          let (e, r) := if nimport == 1 then importRunRF F cfg1 rf1 st else importRun F cfg2 st
           mst := some r.st
           if showErr e != obs then
             out := out.push s!"DIFF C14 case {c.num} line {ln}: import #{nimport} impl=<{obs}> model=<{showErr e}>"
